@@ -5,6 +5,7 @@ from math import prod
 from typing import ClassVar
 
 import equinox as eqx
+import jax
 import jax.numpy as jnp
 import numpy as np
 from jaxtyping import Array, Int
@@ -120,6 +121,23 @@ class Flip(AbstractBijection):
         return jnp.flip(y), jnp.array(0)
 
 
+def _bool_to_int_idxs(idxs):
+    # Boolean masks cannot be used for indexing once traced (e.g. when the bijection is
+    # passed through jit), so concrete masks are converted to equivalent integer indices.
+    def _convert(idx):
+        is_concrete = isinstance(idx, np.ndarray | jnp.ndarray) and not isinstance(
+            idx, jax.core.Tracer
+        )
+        if is_concrete and idx.dtype == bool:
+            return tuple(jnp.asarray(i) for i in np.nonzero(np.asarray(idx)))
+        return (idx,)
+
+    if isinstance(idxs, tuple):
+        return tuple(i for idx in idxs for i in _convert(idx))
+    converted = _convert(idxs)
+    return converted if len(converted) != 1 else converted[0]
+
+
 class Partial(AbstractBijection):
     """Applies bijection to specific indices of an input.
 
@@ -132,7 +150,7 @@ class Partial(AbstractBijection):
     """
 
     bijection: AbstractBijection
-    idxs: int | slice | Array | tuple
+    idxs: int | slice | Array | tuple = eqx.field(converter=_bool_to_int_idxs)
     shape: tuple[int, ...]
 
     def __check_init__(self):
